@@ -36,7 +36,7 @@ func (c14) Rule() string {
 		"U^k R^k for every k. (approximate) programs that also contain text/tree styles, array move / set-by-index: every " +
 		"Undo/Redo returns nil, Root()==Marshal(), and ALL changes the walk produced are delivered through the wire codec to a " +
 		"fresh peer, which must apply them without error and show the author's content. The peer delivery is also done in the " +
-		"other two families. Non-trivial = >=3 history entries and >=3 undo/redo calls."
+		"other two families. Non-trivial = >=3 history entries and >=3 undo/redo calls. Collection steps (single attached client) in random and exhaustive families (each program: none / once / after every call); approximate-array family; structural monitors (splay weights, insertion chains, registries) after every undo/redo/collect; symptoms of recorded findings never end an enumeration."
 }
 func (c14) Assumptions() []string {
 	return []string{"no server; single goroutine", "tree edits stay inside one parent (no split, no merge): split+edit and dedup counters are outside the property's quantifier",
